@@ -89,6 +89,8 @@ def run(ctx):
     ctx.rule("C14-pairing", "the in-progress mark is removed on all exits of the function that set it")
     from . import libtables
     ctx.rule("C14-cycle-guard", "loading terminates: a library that is being loaded is not loaded again (cyclic-import error)")
+    from . import importtables as _imt
+    _imt.rule_outer_marks(ctx, "C14-cycle-guard")
     d_load = libtables.rule_load(ctx, "C14-pairing", "C14-cycle-guard")
     def _old_pairing():
         acq_funcs = []
